@@ -49,7 +49,8 @@ from vmc.report import Broken, Check
 PID = "C10"
 LEVEL = "model_checking"
 ENGINE = ("E1 product of solver configurations + E3 explicit-state BFS over setter histories "
-          "after a solve (whole-object digest as canonical key)")
+          "after a solve (whole-object digest as canonical key), incl. channel-side events, rejected calls "
+          "and two live objects")
 RULE = ("E1: every (solver, K, Nr, Nt, Ns, initialize_with, power, generic channel member) of the tables in "
         "the module x every max_iterations of {1,2,3,5,10,20}; a case is non-trivial when solve completed and "
         "distinct by its configuration tuple. E3: every history up to the depth bound over the 16-event "
@@ -319,8 +320,8 @@ def e1_cases(tier):
         noises = [None] if name in ITERATIVE[:2] else ([0.05, 1.0] if thorough else [0.05])
         for (K, Nr, Nt, Ns) in cfgs:
             for init in ("random", "svd", "closed_form", "alt_min"):
-                if init == "alt_min" and name == "AlternatingMinIASolver":
-                    continue
+                if init == "alt_min" and (name == "AlternatingMinIASolver" or (K == 2 and not thorough)):
+                    continue        # (quick: the alt_min start only for the K = 3 layouts)
                 if init == "closed_form" and not (K == 3 and Nr == Nt and len(set(Nr)) == 1
                                                   and isinstance(Ns, int)):
                     continue
@@ -606,8 +607,10 @@ def e3_bases(tier):
              P0=1.0, noise=None),
     ]
     if tier != "thorough":
-        # quick: one base per solver class + the multi-stream closed form (AltMin: the Ns=3 base)
-        return [dict(x, part="E3", s=0) for i, x in enumerate(b) if i != 1]
+        # quick: one base per solver class (closed form: the multi-stream one, AltMin: the Ns=3 one,
+        # MinLeakage with the cheaper seeded random initialisation)
+        out = [dict(x, part="E3", s=0) for i, x in enumerate(b) if i not in (0, 1)]
+        return [dict(x, init="random") if x["solver"] == "MinLeakageIASolver" else x for x in out]
     out = [dict(x, part="E3", s=0) for x in b]
     out += [dict(x, part="E3", s=1) for x in b[:4]]      # second channel member: small bases
     return out
@@ -824,6 +827,7 @@ class E3Job:
         self._heff = {}
         self.events = events(chk.tier, base["solver"])
         self._err_done = set()
+        self._diff_done = set()
 
     # ---- real object ---------------------------------------------------
     def new_solver(self, chan=()):
@@ -871,7 +875,9 @@ class E3Job:
     def fresh(self, chan=(), variant=0, fixF=None):
         """what `solve` / `randomizeF` produce on a fresh object bound to a channel in the
         state `chan` (memoised); with initialize_with='fix' the solve continues from `fixF`"""
-        key = (chan, variant, None if fixF is None else sdigest(fixF, 9))
+        # (exact bits: an ill-conditioned continuation amplifies even 1e-16 input differences)
+        key = (chan, variant, None if fixF is None else
+               tuple(np.ascontiguousarray(x).tobytes() for x in fixF))
         if key not in self._fresh:
             K = self.K
             sv = self.new_solver(chan)
@@ -1146,7 +1152,11 @@ class E3Job:
         if not bad:
             chk.count("states_all_views_coherent")
         # ---- fresh-solver differential: the library on a fresh object agrees with the model
-        if not md["Flist"] and not (ev is not None and ev[0] == "read"):     # (a read leaves the model as is)
+        dkey = (md["chan"], md["FFx"] is not None) + tuple(
+            np.ascontiguousarray(x).tobytes() for x in list(md["F"]) + list(md["WH"]) + [md["P"]] +
+            (list(md["FFx"]) if md["FFx"] is not None else []))
+        if not md["Flist"] and dkey not in self._diff_done:     # (once per distinct model state)
+            self._diff_done.add(dkey)
             f = self.new_solver(md["chan"])
             if md["FFx"] is not None:
                 f.set_precoders(full_F=obj_array([np.array(x) for x in md["FFx"]]), P=np.array(md["P"]))
@@ -1326,9 +1336,72 @@ def run_e3_job(chk, base, depth):
 
 
 # ----------------------------------------------------------------------
+# several live objects: two solvers of one class used alternately must not influence each other
+# ----------------------------------------------------------------------
+TWIN_EVENTS = [("read", "full_W_H"), ("P", "vec"), ("setF", "array"), ("setFF_P", "array"),
+               ("setWH", "array"), ("randF", 5), ("solve", 0), ("solve", "P2"), ("initwith", "fix")]
+
+
+def twin_cases(tier):
+    out = []
+    for b in e3_bases(tier):
+        if b["s"] == 0:
+            out.append(dict(part="TW", base=b))
+    return out
+
+
+def _attr_digests(sv):
+    seen = {}
+    return {k: bfs.digest(_scaled(v, seen), 9) for k, v in vars(sv).items()}
+
+
+def run_twin_case(chk, case):
+    A = dict(case["base"])
+    B = dict(A, s=A["s"] + 3, P0=2.5)         # same class and layout, other channel, other power
+    evs = [e for e in TWIN_EVENTS if not (A["solver"] == "ClosedFormIASolver" and e[0] == "initwith")]
+    n = len(evs)
+
+    def fresh(b):
+        m, _ = make_channel(b["s"], b["K"], b["Nr"], b["Nt"], b["noise"], b.get("hscale", 1.0))
+        return make_solver(b["solver"], m, b["init"], b["n"], b.get("best", True))
+
+    hists = [()] + [(e,) for e in evs] + [(e, f) for e in evs for f in evs]
+    with chk.guard(("two_live_objects", A["solver"], "oracle"), case):
+        for hist in hists:
+            c = dict(case, history=[list(e) for e in hist])
+            other = tuple(evs[(evs.index(e) + 4) % n] for e in hist)   # what B does in between
+            # --- each object alone
+            a = fresh(A)
+            e3_solve(a, A)
+            for e in hist:
+                apply_event(a, e, A)
+            b_ = fresh(B)
+            e3_solve(b_, B)
+            for e in other:
+                apply_event(b_, e, B)
+            # --- both alive, used alternately
+            a2, b2 = fresh(A), fresh(B)
+            e3_solve(b2, B)
+            e3_solve(a2, A)
+            for e, f in zip(hist, other):
+                apply_event(b2, f, B)
+                apply_event(a2, e, A)
+            chk.count("eval_two_live_object_histories")
+            for who, solo, twin in (("first", a, a2), ("second", b_, b2)):
+                if sdigest(solo, 9) != sdigest(twin, 9):
+                    d0, d1 = _attr_digests(solo), _attr_digests(twin)
+                    changed = sorted(k for k in set(d0) | set(d1) if d0.get(k) != d1.get(k))
+                    chk.fail(("two_live_objects", A["solver"], "differs_from_the_object_used_alone"), c,
+                             observed="%s object: attributes %s differ" % (who, ", ".join(changed)),
+                             expected="identical to the same call sequence on a single live object")
+            if hist:
+                chk.nontriv(("twin", A["solver"], A["K"], hist))
+
+
 def all_jobs(tier):
     depth = 4 if tier == "thorough" else 3
     jobs = [("E3", b, depth) for b in e3_bases(tier)]
+    jobs += [("TW", c, None) for c in twin_cases(tier)]
     jobs += [("E1", c, None) for c in e1_cases(tier)]
     return jobs
 
@@ -1356,7 +1429,7 @@ def main(chk: Check):
     jobs = all_jobs(tier)
 
     e3 = [j for j in jobs if j[0] == "E3"]
-    e1 = [j for j in jobs if j[0] == "E1"]
+    e1 = [j for j in jobs if j[0] != "E3"]
 
     def worker(i, n, c):
         # E3 jobs are long: one per shard; shards without one take a triple share of E1
@@ -1367,7 +1440,7 @@ def main(chk: Check):
             slots += [sh] * (1 if sh < len(e3) else 3)
         for j, (kind, job, depth) in enumerate(e1):
             if slots[j % len(slots)] == i:
-                run_e1_case(c, job)
+                (run_twin_case if kind == "TW" else run_e1_case)(c, job)
 
     run_shards(chk, worker, common.ncores())
     chk.sample(jobs[0][1])
@@ -1384,7 +1457,9 @@ def _tuplify(h):
 
 
 def replay(case, chk: Check):
-    if case.get("part") == "E3":
+    if case.get("part") == "TW":
+        run_twin_case(chk, dict(part="TW", base=dict(case["base"])))
+    elif case.get("part") == "E3":
         base = dict(case["base"])
         hist = _tuplify(case["history"])
         job = E3Job(chk, base, len(hist))
